@@ -17,6 +17,7 @@ markers / permissions / grants / contracts configuration — and every operation
 list.  Helper lemmas live in `PvProofs/Lemmas/Vowner*.lean`.
 -/
 import PvProofs.Lemmas.VownerEffects
+import PvProofs.Lemmas.VownerGrants
 import PvProofs.Lemmas.VownerChecker
 
 namespace PvProofs.C09
@@ -65,6 +66,9 @@ theorem exec_step {s s' : State} {op : Op} (hinv : Inv s) (h : exec s op = .ok s
   | access m a ps =>
     obtain ⟨h1, h2⟩ := setAccess_eq h
     exact ⟨inv_of_ledger_scopes_eq hinv h1 h2, goodStep_of_ledger_eq _ _ h1⟩
+  | mstatus m st =>
+    obtain ⟨h1, h2⟩ := setStatus_eq h
+    exact ⟨inv_of_ledger_scopes_eq hinv h1 h2, goodStep_of_ledger_eq _ _ h1⟩
 
 theorem opEffectiveSigners_sub (s : State) (op : Op) : ∀ x ∈ opEffectiveSigners s op, x ∈ opSigners op := by
   cases op <;> simp [opEffectiveSigners, opSigners, stepInfo] <;> exact effectiveSigners_sub s _
@@ -83,6 +87,7 @@ theorem exec_step_signers {s s' : State} {op : Op} (hinv : Inv s) (h : exec s op
   | grant gr ge mt c => exact hg.mono (opEffectiveSigners_sub s _) (by simp [opKind, stepInfo])
   | revoke gr ge mt => exact hg.mono (opEffectiveSigners_sub s _) (by simp [opKind, stepInfo])
   | access m a ps => exact hg.mono (opEffectiveSigners_sub s _) (by simp [opKind, stepInfo])
+  | mstatus m st => exact hg.mono (opEffectiveSigners_sub s _) (by simp [opKind, stepInfo])
 
 /-- A rejected message changes nothing (the model is transactional by construction; the harness
 checks the same of the implementation by comparing dumps). -/
@@ -179,6 +184,7 @@ theorem supply_changes_only_by_write_delete {s s' : State} (hinv : Inv s) (op : 
   | grant gr ge mt c => simp [exec] at h; subst h; rfl
   | revoke gr ge mt => rw [(deleteGrant_eq h).1]
   | access m a ps => rw [(setAccess_eq h).1]
+  | mstatus m st => rw [(setStatus_eq h).1]
 
 /-- a WriteScope without a value-owner field never touches any token -/
 theorem write_without_value_owner_keeps_tokens {s s' : State} (hinv : Inv s) (id : ScopeId)
@@ -360,6 +366,7 @@ theorem env_ops_move_nothing {s s' : State} (op : Op) (hk : opKind op = .env) (h
   | grant gr ge mt c => simp [exec] at h; subst h; exact ⟨rfl, rfl⟩
   | revoke gr ge mt => exact deleteGrant_eq h
   | access m a ps => exact setAccess_eq h
+  | mstatus m st => exact setStatus_eq h
   | write id owners ru vo sg => simp [opKind, stepInfo] at hk
   | delete id sg => simp [opKind, stepInfo] at hk
   | updvo ids vo sg => simp [opKind, stepInfo] at hk
@@ -425,6 +432,132 @@ theorem messages_never_create_grants {s s' : State} (hinv : Inv s) (op : Op) (hk
   | grant gr ge mt c => simp [opKind, stepInfo] at hk
   | revoke gr ge mt => simp [opKind, stepInfo] at hk
   | access m a ps => simp [opKind, stepInfo] at hk
+  | mstatus m st => simp [opKind, stepInfo] at hk
+
+/-! ## Clause 2b — consent through an authz grant costs one of the grant's uses -/
+
+theorem voUsed_elim {s : State} {pre cur : List Grant} {sg : List Addr} {mt : MsgType} {hd : Addr}
+    (h : VoUsed s pre cur (effectiveSigners s sg) mt hd) (hnosig : hd ∉ sg) (hnomarker : findMarker s hd = none) :
+    ∃ ge ∈ sg, ∃ g, lookupGrant pre ge hd mt = some g ∧ (g.count = 0 ∨ usedUp cur g = true) := by
+  rcases h with h | h | ⟨ge, hge, hu⟩
+  · exact absurd (effectiveSigners_sub s sg _ h) hnosig
+  · simp [isMarker, hnomarker] at h
+  · exact ⟨ge, effectiveSigners_sub s sg _ hge, usedR_elim hu⟩
+
+/-- **authz_consent_uses_grant**: in every successful metadata message (WriteScope, DeleteScope,
+UpdateValueOwners, MigrateValueOwner — any arguments, any signer list) from an invariant state, if
+`hd` held scope `d`'s token before and not after, `hd` did not sign and is not a marker — so only
+an authz grant can have authorised the change — then `hd` has a grant in force for this message
+type to one of the signers which is either unlimited (a generic authorization) or has been USED
+by the message: afterwards it is gone or has fewer uses left.  (`MsgUpdateValueOwners` and
+`MsgMigrateValueOwner` do their signer check on the real state, not on a copy.) -/
+theorem authz_consent_uses_grant {s s' : State} (hinv : Inv s) (op : Op) (mt : MsgType)
+    (hk : opKind op = .msg mt) (h : exec s op = .ok s')
+    (d : ScopeId) (hd : Addr) (hbefore : HolderIs s.ledger d (some hd))
+    (hafter : ¬ HolderIs s'.ledger d (some hd))
+    (hnosig : hd ∉ opSigners op) (hnomarker : findMarker s hd = none) :
+    ∃ ge ∈ opSigners op, ∃ g, lookupGrant s.grants ge hd mt = some g ∧
+      (g.count = 0 ∨ usedUp s'.grants g = true) := by
+  cases op with
+  | write id owners ru vo sg =>
+    simp [opKind, stepInfo] at hk; subst hk
+    exact voUsed_elim (write_use hinv h hbefore hafter) hnosig hnomarker
+  | delete id sg =>
+    simp [opKind, stepInfo] at hk; subst hk
+    exact voUsed_elim (delete_use hinv h hbefore hafter) hnosig hnomarker
+  | updvo ids vo sg =>
+    simp [opKind, stepInfo] at hk; subst hk
+    simp only [exec] at h
+    unfold updateValueOwners at h
+    split at h
+    · simp at h
+    · cases hl : getScopeValueOwners s.ledger ids with
+      | error e => rw [hl] at h; simp at h
+      | ok links =>
+        rw [hl] at h; simp only at h
+        cases hv : validateUpdateValueOwners s links vo sg .updvo with
+        | error e => rw [hv] at h; simp at h
+        | ok r =>
+          obtain ⟨a, agents⟩ := r
+          rw [hv] at h; simp only at h
+          exact voUsed_elim (moveValueOwners_use hinv hv h hbefore hafter) hnosig hnomarker
+  | migrate ex pr sg =>
+    simp [opKind, stepInfo] at hk; subst hk
+    simp only [exec] at h
+    unfold migrateValueOwner at h
+    split at h
+    · simp at h
+    · simp only at h
+      split at h
+      · simp at h
+      · cases hv : validateUpdateValueOwners s (scopesForValueOwner s.ledger ex) pr sg .migrate with
+        | error e => rw [hv] at h; simp at h
+        | ok r =>
+          obtain ⟨a, agents⟩ := r
+          rw [hv] at h; simp only at h
+          exact voUsed_elim (moveValueOwners_use hinv hv h hbefore hafter) hnosig hnomarker
+  | send frm to ids => simp [opKind, stepInfo] at hk
+  | mwithdraw mk ad to ids => simp [opKind, stepInfo] at hk
+  | grant gr ge mt c => simp [opKind, stepInfo] at hk
+  | revoke gr ge mt => simp [opKind, stepInfo] at hk
+  | access m a ps => simp [opKind, stepInfo] at hk
+  | mstatus m st => simp [opKind, stepInfo] at hk
+
+/-- **one_use_grant_is_gone** — a grant for ONE use authorises one change: under the hypotheses
+above, when every grant `hd` has given to a signer for this message type is a count
+authorization with one use left, one of them is in force before the message and gone after it.
+The next message signed by the same people then falls under `no_consent_no_change`. -/
+theorem one_use_grant_is_gone {s s' : State} (hinv : Inv s) (op : Op) (mt : MsgType)
+    (hk : opKind op = .msg mt) (h : exec s op = .ok s')
+    (d : ScopeId) (hd : Addr) (hbefore : HolderIs s.ledger d (some hd))
+    (hafter : ¬ HolderIs s'.ledger d (some hd))
+    (hnosig : hd ∉ opSigners op) (hnomarker : findMarker s hd = none)
+    (hone : ∀ ge ∈ opSigners op, ∀ g, lookupGrant s.grants ge hd mt = some g → g.count = 1) :
+    ∃ ge ∈ opSigners op, (lookupGrant s.grants ge hd mt).isSome = true ∧ lookupGrant s'.grants ge hd mt = none := by
+  obtain ⟨ge, hge, g, hl, hu⟩ := authz_consent_uses_grant hinv op mt hk h d hd hbefore hafter hnosig hnomarker
+  have h1 := hone ge hge g hl
+  refine ⟨ge, hge, by rw [hl]; rfl, ?_⟩
+  rcases hu with hu | hu
+  · rw [h1] at hu; cases hu
+  · obtain ⟨_, k1, k2, k3⟩ := lookupGrant_some hl
+    unfold usedUp at hu
+    rw [k1, k2, k3] at hu
+    cases hl2 : lookupGrant s'.grants ge hd mt with
+    | none => rfl
+    | some g' =>
+      rw [hl2, h1] at hu
+      simp only [bne_iff_ne, ne_eq, Bool.and_eq_true, decide_eq_true_eq] at hu
+      omega
+
+/-- **marker_owner_change_needs_withdraw** — when the value owner is a marker, in WHATEVER
+lifecycle status (proposed, finalized, active, cancelled, destroyed: `m.status` is arbitrary), a
+metadata message moves or burns the token only if one of its signers has withdraw permission on
+that marker (the marker account itself neither signs nor grants). -/
+theorem marker_owner_change_needs_withdraw {s s' : State} (hinv : Inv s) (op : Op) (mt : MsgType)
+    (hk : opKind op = .msg mt) (h : exec s op = .ok s')
+    (d : ScopeId) (mk : Addr) (m : Marker) (hm : findMarker s mk = some m)
+    (hbefore : HolderIs s.ledger d (some mk)) (hafter : ¬ HolderIs s'.ledger d (some mk))
+    (hnosig : mk ∉ opSigners op)
+    (hnogrant : ∀ g ∈ s.grants, g.granter = mk → g.mt = mt → g.grantee ∉ opSigners op) :
+    ∃ x ∈ opSigners op, m.has x .withdraw = true := by
+  have hc := owner_change_authorised hinv op h d mk hbefore hafter
+  rw [hk] at hc
+  rcases hc with h1 | ⟨g, hg, h1, h2, h3⟩ | ⟨m', hm', x, hx, hw⟩
+  · exact absurd h1 hnosig
+  · exact absurd h2 (hnogrant g hg h1 h3)
+  · rw [hm] at hm'; injection hm' with hm'; subst hm'
+    exact ⟨x, hx, hw⟩
+
+/-- the hypotheses are satisfiable with a cancelled marker: `B` has withdraw on `MR`, `MR` is
+cancelled while it holds the token, `B` migrates it away -/
+example : ∃ s', exec (run {} [.write "s1" [req "A"] false "C" ["A"], .access "MR" "C" [.deposit], .send "C" "MR" ["s1"],
+    .access "MR" "B" [.withdraw], .mstatus "MR" .cancelled]) (.migrate "MR" "E" ["B"]) = .ok s' ∧
+    ¬ HolderIs s'.ledger "s1" (some "MR") := by
+  refine ⟨_, rfl, ?_⟩
+  intro hh
+  have := hh.2 "E"
+  revert this
+  decide
 
 /-! ## The checker run on the implementation is the conjunction of the above
 
@@ -470,7 +603,18 @@ theorem step_ok {s : State} (hinv : Inv s) (op : Op) (ids : List ScopeId) :
       simp only [List.all_eq_true]
       intro o _
       cases op <;> simp [deleteOne, stepInfo]
-    simp [hrej, hcons, hdep, hdel]
+    have hgu : (observe s ids).scopes.all (grantUseOne (observe s ids) (stepInfo op false) (observe s ids)) = true := by
+      simp only [observe, List.all_eq_true, List.mem_map]
+      rintro o ⟨id, hid, rfl⟩
+      obtain ⟨o1, ho1, h1, _⟩ := observeScope_of_inv hinv id
+      have := preHolder_observe hinv hid ho1
+      unfold observe at this
+      have hid' : (observeScope s id).id = id := rfl
+      unfold grantUseOne
+      split
+      · simp only [hid', this, h1]; simp
+      · rfl
+    simp [hrej, hcons, hdep, hdel, hgu]
   | ok s1 =>
     have hs : (applyOp s op).1 = s1 := by simp [applyOp, hex]
     rw [hs] at hinv' ⊢
@@ -539,7 +683,40 @@ theorem step_ok {s : State} (hinv : Inv s) (op : Op) (ids : List ScopeId) :
       | grant _ _ _ _ => simp [deleteOne, stepInfo]
       | revoke _ _ _ => simp [deleteOne, stepInfo]
       | access _ _ _ => simp [deleteOne, stepInfo]
-    simp [hrej, hcons, hdep, hdel]
+      | mstatus _ _ => simp [deleteOne, stepInfo]
+    have hgu : (observe s1 ids).scopes.all (grantUseOne (observe s ids) (stepInfo op true) (observe s1 ids)) = true := by
+      simp only [observe, List.all_eq_true, List.mem_map]
+      rintro o ⟨id, hid, rfl⟩
+      obtain ⟨o0, ho0, _, _⟩ := observeScope_of_inv hinv id
+      obtain ⟨o1, ho1, h1, _⟩ := observeScope_of_inv hinv' id
+      have hpre := preHolder_observe hinv hid ho0
+      unfold observe at hpre
+      have hid' : (observeScope s1 id).id = id := rfl
+      unfold grantUseOne
+      split
+      · rename_i mt hkm
+        simp only [hid', hpre, h1]
+        by_cases heq : o0 = o1
+        · simp [heq]
+        · cases o0 with
+          | none => simp
+          | some a =>
+            by_cases hsig : a ∈ (stepInfo op true).signers
+            · simp [hsig]
+            · cases hm : findMarker s a with
+              | some m =>
+                have hm' : s.markers.find? (fun m => m.addr = a) = some m := hm
+                simp [hm']
+              | none =>
+                have hafter : ¬ HolderIs s1.ledger id (some a) := fun hh => heq (holderIs_unique hh ho1)
+                obtain ⟨ge, hge, g, hl, hu⟩ := authz_consent_uses_grant hinv op mt hkm hex id a ho0 hafter hsig hm
+                simp only [Bool.or_eq_true]
+                right; right
+                simp only [grantsTo, List.any_eq_true, List.mem_filterMap]
+                refine ⟨g, ⟨ge, hge, hl⟩, ?_⟩
+                rcases hu with hu | hu <;> simp [hu]
+      · rfl
+    simp [hrej, hcons, hdep, hdel, hgu]
 
 /-- **all_steps_ok**: along ANY operation sequence from the empty chain every single step passes
 the property checker. -/
@@ -589,6 +766,33 @@ example : holder (run {} [.write "s1" [req "A"] false "C" ["A"], .access "MR" "C
     .mwithdraw "MR" "C" "E" ["s1"]]) "s1" = some (some "MR") := by decide
 example : holder (run {} [.write "s1" [req "A"] false "C" ["A"], .access "MR" "C" [.deposit, .withdraw], .send "C" "MR" ["s1"],
     .mwithdraw "MR" "C" "E" ["s1"]]) "s1" = some (some "E") := by decide
+/-- a one-use grant is single use through MigrateValueOwner too -/
+example : holder (run {} [.write "s1" [req "A"] false "C" ["A"], .grant "C" "B" .migrate 1, .migrate "C" "D" ["B"],
+    .send "D" "C" ["s1"], .migrate "C" "D" ["B"]]) "s1" = some (some "C") := by decide
+example : (run {} [.write "s1" [req "A"] false "C" ["A"], .grant "C" "B" .migrate 1, .migrate "C" "D" ["B"]]).grants = [] := by decide
+/-- a two-use grant has one use left after the first message and is gone after the second -/
+example : (run {} [.write "s1" [req "A"] false "C" ["A"], .write "s2" [req "A"] false "C" ["A"], .grant "C" "B" .updvo 2,
+    .updvo ["s1"] "D" ["B"]]).grants = [⟨"C", "B", .updvo, 1⟩] := by decide
+example : (run {} [.write "s1" [req "A"] false "C" ["A"], .write "s2" [req "A"] false "C" ["A"], .grant "C" "B" .updvo 2,
+    .updvo ["s1"] "D" ["B"], .updvo ["s2"] "D" ["B"]]).grants = [] := by decide
+/-! markers that are not active: a scope token leaves a cancelled / proposed / finalized / destroyed
+marker under the same rule as an active one (a signer with withdraw permission) -/
+example : holder (run {} [.write "s1" [req "A"] false "C" ["A"], .access "MR" "C" [.deposit], .send "C" "MR" ["s1"],
+    .mstatus "MR" .cancelled, .migrate "MR" "E" ["D"]]) "s1" = some (some "MR") := by decide
+example : holder (run {} [.write "s1" [req "A"] false "C" ["A"], .access "MR" "C" [.deposit], .send "C" "MR" ["s1"],
+    .mstatus "MR" .cancelled, .updvo ["s1"] "E" ["A"]]) "s1" = some (some "MR") := by decide
+example : holder (run {} [.write "s1" [req "A"] false "C" ["A"], .access "MR" "C" [.deposit], .send "C" "MR" ["s1"],
+    .mstatus "MR" .cancelled, .write "s1" [req "A"] false "A" ["A"]]) "s1" = some (some "MR") := by decide
+example : holder (run {} [.write "s1" [req "A"] false "C" ["A"], .access "MR" "C" [.deposit], .send "C" "MR" ["s1"],
+    .mstatus "MR" .cancelled, .delete "s1" ["A"]]) "s1" = some (some "MR") := by decide
+example : holder (run {} [.mstatus "MU" .proposed, .write "s1" [req "A"] false "MU" ["A"], .updvo ["s1"] "E" ["A"]]) "s1"
+    = some (some "MU") := by decide
+example : holder (run {} [.mstatus "MU" .proposed, .write "s1" [req "A"] false "MU" ["A"], .access "MU" "B" [.withdraw],
+    .updvo ["s1"] "E" ["B"]]) "s1" = some (some "E") := by decide
+/-- the marker module's own Withdraw message works on active markers only -/
+example : (applyOp (run {} [.write "s1" [req "A"] false "C" ["A"], .access "MR" "C" [.deposit, .withdraw], .send "C" "MR" ["s1"],
+    .mstatus "MR" .cancelled]) (.mwithdraw "MR" "C" "E" ["s1"])).2 = "err:status" := by decide
+
 /-! `require_party_rollup` scopes with optional parties; the value owner may be one of them -/
 
 /-- the required party alone cannot move the token of a value owner who is an optional party,
